@@ -3,7 +3,30 @@
 -/
 import SV.Protocol
 import SV.Spec.Iso13616
+import SV.Spec.Iso9362
+import SV.Proofs.IbanSound
 namespace SV.Spec
+
+/-- Boolean form of `ibanDefect` (by error-class name). -/
+def ibanDefectB (T : Table) (k : String) (c : Str) : Option Bool :=
+  match k with
+  | "InvalidCountryCode" => some (T.lookup (c.take 2)).isNone
+  | "InvalidLength" => some (match T.lookup (c.take 2) with
+      | some e => c.length != e.bbanLength + 4
+      | none => false)
+  | "InvalidStructure" => some (!structureOk T c)
+  | "InvalidChecksumDigits" => some (structureOk T c && !checksumOk c)
+  | _ => none
+
+/-- The defect a BIC error class names. -/
+def bicDefectB (iso : List Str) (k : String) (strict : Bool) (c : Str) : Option Bool :=
+  let lenOk := c.length == 8 || c.length == 11
+  let structOk := iso9362 [(c.drop 4).take 2] strict c
+  match k with
+  | "InvalidLength" => some (!lenOk)
+  | "InvalidStructure" => some (lenOk && !structOk)
+  | "InvalidCountryCode" => some (structOk && !iso.contains ((c.drop 4).take 2))
+  | _ => none
 
 /-- `spec.*` operations. -/
 def dispatch (X : Ctx) (op : String) (args : List String) : Option String :=
@@ -21,6 +44,21 @@ def dispatch (X : Ctx) (op : String) (args : List String) : Option String :=
     match X.T.lookup cc with
     | some e => pure ("ok " ++ showBool (fits e b))
     | none => pure "none"
+  | "spec.bic_valid", [strict, c] => do
+    let strict ← parseBool strict
+    let c ← parseStr c
+    pure ("ok " ++ showBool (iso9362 X.B.iso strict c))
+  | "spec.iban_defect", [k, c] => do
+    let c ← parseStr c
+    match ibanDefectB X.T k c with
+    | some b => pure ("ok " ++ showBool b)
+    | none => pure "ok F"
+  | "spec.bic_defect", [k, strict, c] => do
+    let strict ← parseBool strict
+    let c ← parseStr c
+    match bicDefectB X.B.iso k strict c with
+    | some b => pure ("ok " ++ showBool b)
+    | none => pure "ok F"
   | _, _ => none
 
 end SV.Spec
